@@ -1,7 +1,9 @@
 """C07 — immutability: `fin` variables, fields and parameters are never reassigned."""
+import re
+
 from hypothesis import strategies as st
 
-from pbt import sites
+from pbt import scopegen, sites
 from pbt.worker import outcome
 
 WORLD = """class HErr(msg: Str): Exception(msg)
@@ -90,7 +92,7 @@ def _case(draw):
 
 class C07:
     id = "C07"
-    cases = {"quick": 2500, "thorough": 60000}
+    cases = {"quick": 2000, "thorough": 60000}
     rule = ("one definition (plain, annotated, tuple destructuring, function parameter, function local, class field reached through "
             "self in a method with self / fin self, class field reached through a mutable / fin receiver variable, fin class body "
             "field, fin class argument, or no definition at all), drawn fin or mutable, then one assignment (:=, +=, -=, *=) to it at "
@@ -105,9 +107,11 @@ class C07:
 
     def strategy(self, tier, switches):
         SWITCHES.update(s.split(".", 1)[1] for s in switches if "." in s)
-        return _case()
+        return st.one_of(_case(), _case(), _case(), scopegen.scope_case("assign", False))
 
     def summarize(self, case):
+        if case.get("gen") == "scope":
+            return {"gen": "scope", "expect": case["expect"], "fault": case["fault"], "program": case["src"][len(scopegen.HEADER):]}
         return {k: case[k] for k in ("kind", "position", "fin", "op", "shadowing", "expect")} | {"tail": case["src"][len(WORLD):]}
 
     def check(self, worker, case, stats):
@@ -119,6 +123,8 @@ class C07:
         for k, v in list(EXCLUDED.items()):
             stats.inc("excluded_known:" + k, v)
         EXCLUDED.clear()
+        if case.get("gen") == "scope":
+            return self.check_scope(worker, case, stats, r, oc)
         stats.inc("kind:%s/%s" % (case["kind"], "fin" if case["fin"] else "mut"))
         stats.inc("position:" + case["position"])
         stats.inc("shadowing:%d" % case["shadowing"])
@@ -137,3 +143,32 @@ class C07:
                                                                                                   case["position"]), "tail": tail}
         return {"what": "assignment (%s) to a mutable %s at position %s is rejected" % (case["op"], case["kind"], case["position"]),
                 "diagnostics": r["err"][:2], "tail": tail}
+
+    SUBJECT = re.compile(r"mutab|[Uu]ndefined|not defined|unassigned|not assigned|final|immutable")
+
+    def check_scope(self, worker, case, stats, r, oc):
+        """ScopeGen cases: legal shadow-heavy program, optionally one planted illegal assignment."""
+        fault = case["fault"]
+        stats.inc("scope:%s" % (("fault/" + fault["kind"]) if fault else "legal"))
+        for f in case["features"]:
+            stats.inc("scope_feature:" + f)
+        stats.mark_nontrivial({"src": case["src"]}, sample=self.summarize(case), key=("scope", fault["kind"] if fault else None))
+        if oc == case["expect"]:
+            if oc == "err" and not (r["err"] and all(isinstance(d, str) and d.strip() for d in r["err"])):
+                return {"what": "rejection without diagnostics"}
+            return None
+        rr = worker.call({"op": "transpile_rep", "files": [[case["src"], None]], "dir": "", "annotate": False, "k": 10})
+        if any(outcome(x) != oc for x in rr.get("results", [])):
+            stats.inc("nondeterministic_left_to_C12")
+            return None
+        prog = case["src"][len(scopegen.HEADER):]
+        if case["expect"] == "err":
+            return {"what": "assignment to a fin / undefined target is accepted: %s %s (%s)" % (fault["name"], fault.get("op"),
+                                                                                              fault["kind"]), "program": prog}
+        # a legal program that is rejected: judged only when the diagnostics are about mutability or definedness; the
+        # checker's inference gives up on some shadow-heavy programs for reasons that are not this property's
+        if any(self.SUBJECT.search(d) for d in r["err"]):
+            return {"what": "every assignment of this program has a mutable, defined target, yet it is rejected",
+                    "diagnostics": r["err"][:2], "program": prog}
+        stats.inc("scope:legal_rejected_for_another_reason")
+        return None
